@@ -63,6 +63,34 @@ def op_ctor_name(op):
     return None
 
 
+def import_then_explicit_shape(spec):
+    """True if some blueprint of the application brings a constructor in with `bp.import` and registers, LATER in the same
+    blueprint, another constructor for the same type explicitly (known finding C04-import-beats-later-registration: pavexc
+    lets the imported one win there, so its pipelines differ from what the registration order designates)."""
+    imports = {int(k) for k in (spec.get("ctor_imports") or {})}
+    if not imports:
+        return False
+    defs = ctor_defs(spec)
+
+    def lists(ops, acc):
+        acc.append(ops)
+        for op in ops:
+            if op[0] == "nest":
+                lists(op[1]["ops"], acc)
+        return acc
+    for ops in lists(spec["bp"], []):
+        imported_types = set()
+        for op in ops:
+            n = op_ctor_name(op)
+            if n is None:
+                continue
+            if op[0] == "ctor" and op[1] in imports:
+                imported_types.add(defs[n]["out"])
+            elif defs[n]["out"] in imported_types:
+                return True
+    return False
+
+
 def designations(spec):
     """{("h", i) | ("m", i): {type: constructor name}}: what each handler / middleware sees, per the rule above."""
     defs = ctor_defs(spec)
@@ -219,7 +247,15 @@ def _gen(rng, name):
         head.append(["ctor", c["i"]])
         if c["fallible"]:
             head.append(["eh", "c", c["i"]])
+    # A, B, A: in a third of the applications one constructor is registered against the root, a second constructor for
+    # the same type is registered there too, and then the first one once more: the LATEST registration (the first
+    # constructor) is what the blueprint designates (seeded change C04-4 made `bp.constructor` keep the first slot)
+    aba_cands = [i for i in range(n) if fam[i] != "singleton" and len(variants[i]) > 1 and not ctors[i]["fallible"]]
+    aba = rng.choice(aba_cands) if aba_cands and rng.random() < 0.35 else None
     for x in xctors:
+        if aba is not None and x is variants[aba][1]:
+            items[0].append(reg_op(name, x["name"]))
+            continue
         # mostly nested levels; sometimes the root (an override inside one blueprint); sometimes registered twice against
         # the same blueprint. One function is never registered against two blueprints: those would be two constructors
         # for pavexc (one per registration) that a trace could not tell apart.
@@ -258,8 +294,10 @@ def _gen(rng, name):
         return out
 
     bp = head + build(0)
+    if aba is not None:
+        bp.append(["ctor", aba])
     spec = {"name": name, "klass": "scopes", "types": types, "ctors": ctors, "xctors": xctors, "handlers": [], "mws": [],
-            "observers": [], "bp": bp, "usage": {}, "extra_items": [render_xctor(name, x) for x in xctors]}
+            "observers": [], "bp": bp, "usage": {}, "extra_items": [render_xctor(name, x) for x in xctors], "aba": aba}
     # component inputs, with modes that keep ownership trivially satisfiable under the designated constructors
     for h in range(n_routes):
         spec["handlers"].append({"i": h, "method": rng.choice(["GET", "POST", "PUT"]), "path": "/%s/r%d" % (name, h),
@@ -287,7 +325,7 @@ def _gen(rng, name):
         m["ins"] = comp_ins(("m", m["i"]))
     if rng.random() < 0.3:
         # some base constructors are brought in by `bp.import(from![module])` instead of `bp.constructor(..)`
-        pick = [c["i"] for c in ctors if not c["fallible"] and rng.random() < 0.6]
+        pick = [c["i"] for c in ctors if not c["fallible"] and c["i"] != aba and rng.random() < 0.6]
         spec["ctor_imports"] = {str(i): k for k, i in enumerate(pick)}
     return spec
 
